@@ -500,11 +500,11 @@ def case_transform(name):
     return cases
 
 
-def case_transformed_parameter(which):
+def case_transformed_parameter(which, d=3):
     """TransformedParameter: tensor and __call__ (log|det J|)"""
     from torchtree.distributions import transforms as T
 
-    d = 3
+    tag = which if d == 3 else f"{which},d={d}"
     params = {"x": real(d)}
     if which == "exp":
         mk = lambda: torch.distributions.ExpTransform()  # noqa: E731
@@ -522,7 +522,7 @@ def case_transformed_parameter(which):
             tp = TransformedParameter("z", Parameter("x", v["x"]), mk())
             return tp.tensor if what == "tensor" else tp()
 
-        out.append(Case(f"TransformedParameter[{which}].{what}", params, build, {"dim": d},
+        out.append(Case(f"TransformedParameter[{tag}].{what}", params, build, {"dim": d},
                         mk=(lambda v: TransformedParameter("z", Parameter("x", v["x"]), mk())) if what == "call" else None))
     return out
 
@@ -858,3 +858,20 @@ def joint_case(components, label=None):
     case.claims = claims
     case.components = [c.name for c in components]
     return case
+
+
+def mixed_batch_components():
+    """components of the systematic mixed-batch joints (one batched [S, d] next to one UNBATCHED component whose
+    element-wise value has N = 1..5 entries, so that N == S occurs) -> flat list (also used to look cases up in replays)"""
+    out = []
+    for d in range(1, 6):
+        out.append(case_distribution("Normal", d))
+        out.append(case_distribution("Normal[d]", d))
+        out.append(case_distribution("Gamma[d]", d))
+        out.append(case_transformed_parameter("exp", d)[1])
+    seen, uniq = set(), []
+    for c in out:
+        if c.name not in seen:
+            seen.add(c.name)
+            uniq.append(c)
+    return uniq
